@@ -30,27 +30,35 @@ Definition c04_predict (S : SOps) (sq eg : nat -> lmx S -> lmx S) (n q : nat) (g
   (mx_comps r, mx_weights r).
 
 (* UKFCorrection::correct + getLikelihood.  generic = false: additive constructor, A = H (m x n),
-   R (m x m); generic = true: A = [H D] (m x (n+q)), R = Rv (q x q).  y = None: no measurement. *)
+   R (m x m); generic = true: A = [H D] (m x (n+q)), R = Rv (q x q).  y = None: no measurement.
+   warm = Some y0: the same object has first performed a successful correction of the same
+   predicted belief with measurement y0 (so that innovations and innovation covariances of
+   an earlier step are present when the step under test starts). *)
 Definition c04_correct (S : SOps) (sq eg : nat -> lmx S -> lmx S) (n q m : nat) (generic : bool)
            (alpha beta kappa : T S) (skip : bool) (A R : lmx S) (y : option (lmx S)) (fail : bool)
+           (warm : option (lmx S))
            (comps : list (lmx S * lmx S)) (ws : list (T S))
            (old_comps : list (lmx S * lmx S)) (old_ws : list (T S))
   : (list (lmx S * lmx S) * list (T S)) * option (list (T S)) :=
   let O := c04_O S sq eg in
   let Lm := mkLayout m 0 false 0 in
-  let st0 : ukf_state O m := @mkUkfState O m [] [] in
   let pred := c04_mix S sq eg n comps ws in
   let old := c04_mix S sq eg n old_comps old_ws in
-  let res :=
+  let step (sk : bool) (yy : option (lmx S)) (fl : bool) (st : ukf_state O m) :=
     if generic then
-      @ukf_correct_generic O n q m (mkLayout n 0 false q) Lm alpha beta kappa skip y
-        (fun X => if fail then None else Some (@linear_cols O (n + q) m A X))
-        (@lin_innovation_cols O m) R pred old st0
+      @ukf_correct_generic O n q m (mkLayout n 0 false q) Lm alpha beta kappa sk yy
+        (fun X => if fl then None else Some (@linear_cols O (n + q) m A X))
+        (@lin_innovation_cols O m) R pred old st
     else
-      @ukf_correct_additive O n m (mkLayout n 0 false m) Lm alpha beta kappa skip y
-        (fun X => if fail then None else Some (@linear_cols O n m A X))
-        (@lin_innovation_cols O m) R pred old st0 in
-  let '(mixr, st, _) := res in
+      @ukf_correct_additive O n m (mkLayout n 0 false m) Lm alpha beta kappa sk yy
+        (fun X => if fl then None else Some (@linear_cols O n m A X))
+        (@lin_innovation_cols O m) R pred old st in
+  let st_empty : ukf_state O m := @mkUkfState O m [] [] in
+  let st0 := match warm with
+             | None => st_empty
+             | Some y0 => snd (fst (step false (Some y0) false st_empty))
+             end in
+  let '(mixr, st, _) := step skip y fail st0 in
   ((mx_comps mixr, mx_weights mixr), @ukf_likelihood O m st).
 
 (* the Kalman steps on the same inputs (spec side); for the noise-input models the
